@@ -840,7 +840,7 @@ BOUNDS = {
         "G8 interleaved extractions": "two extractions in progress at once, their generators advanced in strict alternation, either one first: template A = every layout that is right alone (49) x forms {u, 2, 2l}, template B = each of the 14 kinds x forms {u, 2l}; Babel and Lingua",
         "G9 filter-list layouts": "${expr | filters}: 0/1 line breaks before the '|' x 0..2 after it x 0..2 inside the list x 0..2 between the list and '}' (and the same with a builtin filter and the call in the expression); forms {u, 2, 2l}; with and without a second call in the expression part; LF/CRLF; {none, imm}",
         "G10 option sequences": "every ordered pair of 8 Babel configurations (no option, input_encoding x3, encoding x3, magic comment; same keywords and tags) and of Lingua's 4 file encodings, each pair in a fresh interpreter; plus any worker violation is re-checked in a fresh interpreter alone / after one recent case",
-        "G11 reused extractor": "one extractor object for 2-3 extractions, reconfigured in between (Lingua: update_config and assignment into .config; Babel: assignment into .config): every ordered pair of the comment-tag sets {A, B, A+B, none}, two triples, and (Lingua, files) every ordered pair of 4 encodings",
+        "G11 reused extractor": "one extractor object for 2-3 extractions, reconfigured in between (Lingua: update_config and assignment into .config; Babel: assignment into .config): every ordered pair of the comment-tag sets {A, B, A+B, none}, two triples, and (Lingua, files) every ordered pair of 4 encodings; pending-comment sequences: 5 first documents ending in a tagged comment that precedes no construct x 5 second documents x 3 ways of reuse, two and four extractions",
         "G12 block bodies": "<% %> and <%! %> blocks (code on the tag line / on the next line) whose first statement is an import / assignment / call, containing one compound statement of {if, if-else, for, while, with, try, def, class} whose header lines end in {nothing, a comment, a comment with a colon, a tight comment}; calls before / inside / after it in all 7 combinations; LF/CRLF; {none, imm}",
         "G13 whitespace-only head lines": "${ }, <% %>, <%! %> whose code is preceded by {nothing, a space, a TAB} behind the opener and 0-2 lines drawn from {empty, spaces, TAB, mixed}; forms {u, 2l}; LF/CRLF; {none, imm}",
         "G14 regex-metacharacter tags": "16 configured comment tags built from the seed's tag with [ ] ( ) . * + ? | ^ $ \\ { } (balanced and unbalanced), alone and next to a second tag: a comment starting with the literal tag (must attach) and one starting with what the tag would match as a pattern (must not), either order, LF/CRLF",
